@@ -56,6 +56,8 @@ type pathRun struct {
 	special func(v ssa.Value, eval func(ssa.Value) AVal) (AVal, bool)
 	depth   int
 	err     string
+	// want: the results of the outermost function to evaluate (nil = all)
+	want []int
 }
 
 type pval struct {
@@ -362,6 +364,9 @@ func (r *pathRun) exec(fn *ssa.Function, args []pval, free map[*ssa.FreeVar]func
 		return AVal{}, false
 	}
 	it = &Interp{Fn: fn, Atom: atom}
+	if r.depth == 1 {
+		it.Want = r.want
+	}
 	out := it.Run()
 	if it.Err != "" && r.err == "" {
 		r.err = FuncKey(fn) + ": " + it.Err
